@@ -722,7 +722,7 @@ func (s *DB) getHistoricRootsAndNodes(
 		// Nodes are content-addressed: a version that stays may refer to the very
 		// node a deletable ancestor refers to (e.g. a table that returned to an
 		// earlier content). Never delete a node that a remaining version reaches.
-		err = s.keepReachableNodes(ctx, rootCacheByName, candidateRoots, candidateBlocks)
+		err = s.keepReachableNodes(ctx, rootCacheByName, candidateRoots, candidateBlocks, olderThan)
 		if err != nil {
 			return nil, nil, err
 		}
@@ -740,12 +740,15 @@ func (s *DB) getHistoricRootsAndNodes(
 
 // keepReachableNodes removes from candidateBlocks every node reachable from a
 // version that is not going to be deleted: this tree, the remaining versions
-// of its history, and the current versions of other writers.
+// of its history, the current versions of other writers, and superseded
+// versions that olderThan retains (they may belong to a branch this tree
+// never merged and still share nodes with a deletable ancestor).
 func (s *DB) keepReachableNodes(
 	ctx context.Context,
 	graph rootGraph,
 	candidateRoots dependentRoots,
 	candidateBlocks map[string]int,
+	olderThan time.Time,
 ) error {
 	keep := func(m *mast.Mast) error {
 		return m.DiffLinks(ctx, nil, func(removed bool, link interface{}) (bool, error) {
@@ -777,6 +780,25 @@ func (s *DB) keepReachableNodes(
 			return fmt.Errorf("load %s: %w", name, err)
 		}
 		if root != nil {
+			remaining[name] = root
+		}
+	}
+	merged, err := s.listMergedRoots(ctx)
+	if err != nil {
+		return fmt.Errorf("list merged versions: %w", err)
+	}
+	for _, name := range merged {
+		if _, ok := remaining[name]; ok {
+			continue
+		}
+		if _, deletable := candidateRoots[name]; deletable {
+			continue
+		}
+		root, _, err := loadRootFromAny(ctx, []mast.Persist{s.merged}, name)
+		if err != nil {
+			return fmt.Errorf("load %s: %w", name, err)
+		}
+		if root != nil && (root.Created == nil || !root.Created.Before(olderThan)) {
 			remaining[name] = root
 		}
 	}
